@@ -13,6 +13,10 @@ CLAIMS = {
  "C03": ("proof", "Soundness of the hull builder (every fed point within eps+1/2 of its segment's reported line), proved for all strictly increasing integer point lists; judge in exact arithmetic on the implementation's rectangles/intercepts; fed points captured through hook H1.", "6.3"),
  "C04": ("proof", "Proved for all inputs (integer keys, any eps>=0): a rejection implies infeasibility of the block plus the rejected point (after any accepted history), the drivers emit greedy partitions, greedy partitions are minimal, c chunks cost at most c-1 more, rejected-closed segments span > 2eps ranks; certificate checkers of the judge proved sound. Judge: per emitted segment an infeasibility certificate or a feasible line, both checked by extracted Coq checkers.", "6.4"),
  "C07": ("proof", "Partial proof + checked tie. Theorems: routing-window arithmetic (scan reads <= 2eps_r+3 keys, binary-search window contains the segment) on the regenerated macros, position prediction from an eps_r-feasible upper-level line. Per-level reads recorded by hook H2 and judged against 2*eps_r+3 and the window on every query; level-size/height bound judged on every built index.", "6.7"),
+ "C09": ("proof", "Proved for all inputs: the bucketing table build succeeds under explicit side conditions, the bucket index is inside the table, the bucket's slice contains the rightmost segment with key <= query, and segment_for_key returns it without any out-of-range read (all key widths, power-of-two and other table sizes, both cell modes). The range contract is inherited from C01/C02 (EpsilonRecursive = 0 build) and judged per query; the judge also checks the slice property on the implementation's dumped table.", "6.9"),
+ "C10": ("proof", "Proved for every low width wl, every strictly increasing rebased key list and every query: the model of pred() returns the rightmost stored key <= i and never selects beyond the population or reads outside low/high; the structure stores exactly the keys. Model tied by comparing wl/low/high/segments and pred()/search() outputs exactly. Range contract inherited from C01/C02 and judged per query (including far queries).", "6.10"),
+ "C11": ("proof", "Proved for every sorted list with any duplicate structure, every query and every range satisfying the index contract: lower_bound/upper_bound (with the exponential search past the range)/count/contains equal the std algorithms. Judge: lb/ub/count/membership computed by the extracted counting functions on every query.", "6.11"),
+ "C12": ("proof", "Byte-level round trip load(serialize) proved for all well-formed indexes and key lists; raw-file constructor proved equal to the range constructor; reopen returns the same data/file and an equal index (full equality incl. slopes for double). Judge: file bytes of both constructors compared with the model's bytes and with each other, answers of all four containers compared, file unchanged by reopen checked by the harness.", "6.12"),
  "C05": ("proof", "Refinement of the executable LSM model to an ordered map (insert/erase/bulk/find/count/lower_bound) for all histories and configurations under the per-level index contract; model tied to the implementation by comparing the full private state after every operation; judge = abstract map.", "6.5"),
  "C06": ("proof", "Traversal/range/size/empty of the model (LoserTree, iterator, range merge) against the abstract map; full output sequences compared with the implementation.", "6.6"),
  "C15": ("proof", "LSM invariants proved inductive over all histories; the boolean form inv_b is evaluated on the implementation's dumped private state after every update.", "6.15"),
